@@ -626,3 +626,46 @@ func c03schemaFromEveryReader(c *an.Ctx) {
 		f.LoopNoBreak(r, s, "every out-of-order file is asked")
 	}
 }
+
+func init() {
+	old := All["C03"].Run
+	All["C03"].Run = func(c *an.Ctx) {
+		old(c)
+		c03dirtyLogSkipped(c)
+	}
+	All["C03"].Rules += " R11"
+	addLevel("C03", "start-up recovery skips an incomplete (torn) intent log and goes on to the next one: it leaves the loop over the logs early only for an error other than ErrDirtyLog.")
+}
+
+// c03dirtyLogSkipped — C03.R11.  A crash while the intent log is being written leaves a torn log,
+// which is never deleted.  Recovery must still replay every complete log that sorts after it.
+func c03dirtyLogSkipped(c *an.Ctx) {
+	const I = "engine/immutable"
+	r := c.Rule("C03.R11", "K-LOOPSELECT", I+":procCompactLog — inside the loop over the logs a return is reached only where the read error is known not to be ErrDirtyLog")
+	f := fn(r, I+":procCompactLog")
+	if f == nil {
+		return
+	}
+	rd := f.Find(call(r, I+":readCompactLogFile"))
+	if r.Failed() || rd.Len() == 0 {
+		return
+	}
+	lp := loopOf(f, rd.List[0].Node)
+	if lp == nil {
+		r.Fail(f.Name+": loop", c.P.Pos(f.Body.Pos()), "readCompactLogFile is no longer called in a loop over the log directory")
+		return
+	}
+	rets := f.Find(an.AnyReturn()).Filter("inside the loop over the logs", func(s an.Site) bool {
+		for p := f.Parent(s.Node); p != nil; p = f.Parent(p) {
+			if p == lp {
+				return true
+			}
+		}
+		return false
+	})
+	r.AddSites(rets.Len() + 1)
+	if rets.Len() == 0 {
+		return
+	}
+	f.Guarded(r, rets, "the loop over the logs is left only for an error other than ErrDirtyLog", an.AtomLike(`ErrDirtyLog`, false))
+}
